@@ -3,8 +3,6 @@
 package keeper
 
 import (
-	"math"
-
 	errorsmod "cosmossdk.io/errors"
 
 	sdk "github.com/cosmos/cosmos-sdk/types"
@@ -224,6 +222,11 @@ func (k *Keeper) getBlockDelay(ctx sdk.Context, connection types.ConnectionEnd) 
 	}
 	// calculate minimum block delay by dividing time delay period
 	// by the expected time per block. Round up the block delay.
+	// NOTE: integer arithmetic is used as float64 cannot represent every uint64 exactly.
 	timeDelay := connection.DelayPeriod
-	return uint64(math.Ceil(float64(timeDelay) / float64(expectedTimePerBlock)))
+	blockDelay := timeDelay / expectedTimePerBlock
+	if timeDelay%expectedTimePerBlock != 0 {
+		blockDelay++
+	}
+	return blockDelay
 }
